@@ -6,6 +6,7 @@ CONSTANTS
     InstKind <- MC_Kind1
     NKeys = 3
     PropChoices <- MC_None
+    DupChoices <- MC_NoDups
     Kinds <- MC_None
     Forms <- MC_None
     MaxFrames = 3
@@ -18,7 +19,7 @@ CONSTANTS
     WithLazy = TRUE
     HasRng = TRUE
     ExplicitKinds <- MC_ExNone
-    PushLastWins = TRUE
+    PushLastWins = FALSE
     WithCancel = TRUE
     CancelOwnIds = FALSE
     CtxForms <- MC_Forms
